@@ -111,7 +111,9 @@ def _centers(spec):
     if c == 'uniform':
         return pykoop.UniformRandomCenters(n_centers=spec['n'], random_state=spec.get('seed', 1))
     if c == 'qmc':
-        return pykoop.QmcCenters(n_centers=spec['n'], random_state=spec.get('seed', 1))
+        import scipy.stats
+        eng = {None: None, 'sobol': scipy.stats.qmc.Sobol, 'halton': scipy.stats.qmc.Halton}[spec.get('engine')]
+        return pykoop.QmcCenters(n_centers=spec['n'], random_state=spec.get('seed', 1), **({} if eng is None else {'qmc': eng}))
     if c == 'data':
         r = np.random.RandomState(spec.get('seed', 1))
         return pykoop.DataCenters(centers=np.round(r.uniform(-2, 2, size=(spec['n'], spec['n_feat'])), 3))
@@ -130,6 +132,8 @@ def _kernel(spec):
         return pykoop.RandomBinningKernelApprox(n_components=spec['n'], random_state=spec.get('seed', 1))
     if m == 'rbfsampler':
         return sklearn.kernel_approximation.RBFSampler(n_components=spec['n'], random_state=spec.get('seed', 1))
+    if m == 'nystroem':
+        return sklearn.kernel_approximation.Nystroem(n_components=spec['n'], random_state=spec.get('seed', 1))
     raise ValueError(m)
 
 
@@ -302,18 +306,24 @@ def gen_row_stage(rng, kinds, nx, nu):
             sp['n_out'] = sp['n']
         else:
             sp['n'] = rng.choice([1, 2, 4])
+            if c == 'qmc':
+                # every engine, and sample counts that are not powers of two (Sobol only warns about them)
+                sp['engine'] = rng.choice([None, 'sobol', 'halton'])
+                sp['n'] = rng.choice([1, 2, 3, 4, 5])
             sp['n_out'] = sp['n']
         return sp
     if k == 'kernel':
-        m = rng.choice(['rff', 'rff', 'binning', 'rbfsampler'])
+        m = rng.choice(['rff', 'rff', 'binning', 'rbfsampler', 'nystroem'])
         n = rng.choice([1, 2, 3])
+        if m == 'nystroem' and rng.random() < 0.5:
+            n = 100         # the scikit-learn default: more components than a short record has samples (capped at fit)
         sp = {'k': 'kernel', 'method': m, 'n': n, 'seed': rng.randint(0, 99)}
         if m == 'rff':
             sp['rff_method'] = rng.choice(['weight_offset', 'weight_only'])
             sp['kernel'] = rng.choice(['gaussian', 'laplacian', 'cauchy'])
             sp['n_out'] = n if sp['rff_method'] == 'weight_offset' else 2 * n
         else:
-            sp['n_out'] = n * 8 if m == 'binning' else n
+            sp['n_out'] = n * 8 if m == 'binning' else (min(n, 12) if m == 'nystroem' else n)
         return sp
     raise ValueError(k)
 
@@ -377,7 +387,7 @@ def gen_layout(rng, min_len, n_eps=None, extra=4, ep=True):
         n = min_len + rng.randint(0, extra)
         return [(0, n)], [(0, t) for t in range(n)]
     n_eps = n_eps or rng.randint(1, 4)
-    labels = rng.sample(range(0, 9), n_eps)
+    labels = rng.sample(range(0, max(9, 3 * n_eps)), n_eps)
     if rng.random() < 0.15:
         # labels are arbitrary non-negative integers: run numbers, identifiers, time stamps
         big = rng.choice([65536, 70000, 10 ** 6])
